@@ -83,8 +83,12 @@ fn run_req(ctx: &Ctx, r: &Req, tag: &str) -> (cli::RunOut, String) {
             (Some(v), Some(e), false) => e <= if r.undirected { v * v.saturating_sub(1) / 2 } else { v * v.saturating_sub(1) },
             _ => false,
         };
-        if feasible {
+        if feasible && (r.v.unwrap_or(0) + r.e.unwrap_or(0)) % 2 == 0 {
             let _ = std::fs::write(&f, super::common::stale_content());
+        } else if feasible {
+            // ... or is what an EARLIER run of the tool wrote there for a larger request
+            let first = vec![(r.v.unwrap_or(0) + 3).to_string(), "--complete".to_string(), "-o".to_string(), f.display().to_string()];
+            let _ = cli::run(&ctx.bin("random_graph_gen"), &first, None, Some(&dir), None, Duration::from_secs(60));
         }
         args.push("-o".into());
         args.push(f.display().to_string());
@@ -258,7 +262,7 @@ fn convert_case(ctx: &Ctx, st: &mut Stats, edges: &[(String, String)], undirecte
         st.bump("convert_inputs_with_crlf");
     }
     // the file to convert is a regular file, a named pipe or /dev/stdin (chosen by the content)
-    let mode = [0u8, 0, 3, 4][(csv.len() + undirected as usize + 2 * dot as usize) % 4];
+    let mode = [0u8, 0, 3, 4, 6][(csv.len() + undirected as usize + 2 * dot as usize) % 5];
     let plan = super::common::plan_input(mode, &dir, "in.csv", csv.as_bytes());
     st.bump(&format!("convert_input_channel_{}", mode));
     let mut args = vec!["--convert".to_string(), plan.path_arg.clone().unwrap_or_default()];
@@ -580,7 +584,7 @@ pub fn run(ctx: &Ctx) -> (Stats, Spec) {
         }
     }
     let spec = Spec {
-        rule: "all (V in 0..6, E in 0..max+2, -u, --dot, stdout or -o) requests and boundary edge counts for V in {11, 17, 40}, feasible ones repeated 10 [quick] / 60 [thorough] times (every run is a fresh random sample; the number of distinct outputs seen is reported), --complete with and without an edge count, missing arguments; --convert (file to convert: a regular file, a named pipe or /dev/stdin; output to stdout, to another file, or IN PLACE onto the file being converted, directly or through a symbolic link) on every digraph with <= 3 vertices, random edge lists over 4-5 vertices, and (under -u) ordered pairs of distinct edges over five names of every family (a third of them [quick] / all [thorough]) (shuffled rows; exact duplicates and self-loops without -u; reversed pairs under -u), --colors 0..3 on every loop-free graph with 2..4 (thorough: sampled 5) vertices, with seven vertex-name families (names that collide under joining with '-', '_' or '.'; plain; one name a prefix of another: v1 / v10 / v1X, 1 / 10 / 100; names containing the colour suffix pattern), and --colors on generated complete graphs with 11-12 vertices. distinct = (request, output); non-trivial = 0 < E < max resp. non-empty input.".into(),
+        rule: "all (V in 0..6, E in 0..max+2, -u, --dot, stdout or -o) requests and boundary edge counts for V in {11, 17, 40}, feasible ones repeated 10 [quick] / 60 [thorough] times (every run is a fresh random sample; the number of distinct outputs seen is reported), --complete with and without an edge count, missing arguments; --convert (file to convert: a regular file — also one named `-` —, a named pipe or /dev/stdin; output to stdout, to another file, or IN PLACE onto the file being converted, directly or through a symbolic link) on every digraph with <= 3 vertices, random edge lists over 4-5 vertices, and (under -u) ordered pairs of distinct edges over five names of every family (a third of them [quick] / all [thorough]) (shuffled rows; exact duplicates and self-loops without -u; reversed pairs under -u), --colors 0..3 on every loop-free graph with 2..4 (thorough: sampled 5) vertices, with seven vertex-name families (names that collide under joining with '-', '_' or '.'; plain; one name a prefix of another: v1 / v10 / v1X, 1 / 10 / 100; names containing the colour suffix pattern), and --colors on generated complete graphs with 11-12 vertices. distinct = (request, output); non-trivial = 0 < E < max resp. non-empty input.".into(),
         assumptions: vec![
             "uniformity of the random sample is not claimed by the property and not tested".into(),
             "self-loops are not given to --convert -u / --colors, exact duplicates not to --convert -u (their treatment is a convention the statement does not fix); --colors inputs may state an edge twice (the same graph)".into(),
